@@ -97,12 +97,17 @@ class Ctx:
     # ------------------------------------------------------------- finishing
     def finish(self):
         """Print the report, write evidence, return the exit code."""
+        # a rule that sees fewer constructs than were confirmed by hand cannot vouch for the tree (exit 2) -
+        # unless it has something definite to report: a violation found is reported as such (exit 1)
         for rid, (floor, count) in self.floors.items():
             if count < floor:
-                raise AnalysisError(
+                msg = (
                     f"rule {self.prop}.{rid} matched {count} instance(s), floor is {floor}: "
                     "the rule no longer sees the constructs confirmed by hand"
                 )
+                if not self.violations:
+                    raise AnalysisError(msg)
+                self.notes.append("floor deficit next to reported violations: " + msg)
         os.makedirs(self.evidence_dir, exist_ok=True)
         replay_dir = os.path.join(self.evidence_dir, "replay")
         wall = time.time() - self.t0
